@@ -171,6 +171,11 @@ def run(ctx: Ctx):
             (u(t) == f"not {flag}" and pol) or (u(t) == flag and not pol) for t, pol in guards_of(pm, n))]
         rd_ = ReachingDefs(f.node)
         ok = len(rets) == 1 and u(rets[0].value) == "feats" and all(d.kind == "param" for d in rd_.defs_of(rets[0].value))
+        # ... and it depends on nothing else: a further enclosing test (`if lengths is None:`) leaves a path on which evaluation mode
+        # falls through to the augmentation
+        if ok:
+            others = [t for t, pol in guards_of(pm, rets[0]) if u(t) not in (f"not {flag}", flag)]
+            ok = not others
         col.ob("G9", "S3", f"{rel}::{f.qualname}::eval-identity", ok,
                f"in evaluation mode {f.qualname} does not return the parameter `feats` itself", rel, f.line)
     c = [c for c in own_calls(fwd.node)]
